@@ -52,14 +52,23 @@ def coalesceAppendRange (out : List Range) (r : Range) : List Range :=
 /-- The wire range of one user entry. -/
 def single (e : Entry) : Range := ⟨e.offset, e.offset, e.source, e.epoch, e.status⟩
 
-/-- The loop over the sorted user entries: state `(lastOffset, ranges reversed, hasRenew)`.
-`t == 0` is skipped without touching `lastOffset`; an entry at `lastOffset` is a duplicate. -/
-def entryLoop : List Entry → Int → List Range → Bool → List Range × Bool
-  | [], _, acc, hr => (acc, hr)
-  | e :: es, lastOff, acc, hr =>
-    if e.status = 0 then entryLoop es lastOff acc hr
-    else if e.offset = lastOff then entryLoop es lastOff acc hr
-    else entryLoop es e.offset (coalesceRev acc (single e)) (hr || e.status == 4)
+/-- `for len(gaps) > 0 && gaps[0].firstOffset < off { ranges = coalesceAppendRange(ranges, gaps[0]); gaps = gaps[1:] }`:
+new reversed ranges and remaining gaps. -/
+def takeGapsBelow : List Range → Int → List Range → List Range × List Range
+  | [], _, acc => (acc, [])
+  | g :: gs, off, acc => if g.first < off then takeGapsBelow gs off (coalesceRev acc g) else (acc, g :: gs)
+
+/-- The loop over the sorted user entries: state `(lastOffset, ranges reversed, remaining sorted gaps, hasRenew)`.
+`t == 0` is skipped without touching `lastOffset`; an entry at `lastOffset` is a duplicate; the gap ranges
+that start below an emitted entry are emitted before it (repair 5958f14). -/
+def entryLoop : List Entry → Int → List Range → List Range → Bool → List Range × List Range × Bool
+  | [], _, acc, gaps, hr => (acc, gaps, hr)
+  | e :: es, lastOff, acc, gaps, hr =>
+    if e.status = 0 then entryLoop es lastOff acc gaps hr
+    else if e.offset = lastOff then entryLoop es lastOff acc gaps hr
+    else
+      let r := takeGapsBelow gaps e.offset acc
+      entryLoop es e.offset (coalesceRev r.1 (single e)) r.2 (hr || e.status == 4)
 
 /-- `slices.SortFunc(entries, cmp offset)`; Go's pdqsort is an insertion sort (stable) up to 12 elements and
 unstable above: the model sorts stably, the driver does not compare outputs where instability could show. -/
@@ -68,11 +77,11 @@ def sortEntries (es : List Entry) : List Entry := es.mergeSort (fun a b => decid
 /-- `slices.SortFunc(gaps, cmp firstOffset)`. -/
 def sortGaps (gs : List Range) : List Range := gs.mergeSort (fun a b => decide (a.first ≤ b.first))
 
-/-- `buildAckRanges(entries, gaps)`: all user-entry ranges, then all gap ranges, each coalesced onto the
-last range so far. Result in Go order, and `hasRenew`. -/
+/-- `buildAckRanges(entries, gaps)`: the user-entry ranges with the sorted gap ranges merged in by offset, the
+remaining gap ranges last, each coalesced onto the last range so far. Result in Go order, and `hasRenew`. -/
 def buildAckRanges (es : List Entry) (gs : List Range) : List Range × Bool :=
-  let (acc, hr) := entryLoop (sortEntries es) (-1) [] false
-  (((sortGaps gs).foldl coalesceRev acc).reverse, hr)
+  let r := entryLoop (sortEntries es) (-1) [] (sortGaps gs) false
+  ((r.2.1.foldl coalesceRev r.1).reverse, r.2.2)
 
 /-! ### filterStaleEntries (one drain) -/
 
